@@ -4,6 +4,6 @@ use parity_scale_codec::{Compact, Decode, Encode};
 pub enum T {
 	V0 = 300,
 	V1 = 2,
-	#[codec(skip)] #[codec(index = 2)] V2,
+	#[codec(index = 2)] #[codec(skip)] V2,
 }
 fn main() {}
